@@ -1,17 +1,19 @@
 #!/bin/bash
-# usage: tools/ben_eval.sh [Cxx ...] — run all 20 checks on scratch copies of /repo with each benign refactor (.cache/ben/Cxx/patch.diff) applied
+# usage: tools/ben_eval.sh [id ...] — run all 20 checks on every behaviour-preserving variant under benign/<id>/ (patch.diff made against
+# the /repo commit in benign/<id>/BASE; later fix: commits replayed by tools/mk_variant.sh).  A silent run is the expected result.
 cd /verif
-ids=${@:-$(ls benign | sed "s/-b1//")}
-mkdir -p /tmp/bt /tmp/beneval
+ids=${@:-$(ls benign | grep -v README)}
+bt=/tmp/btv; mkdir -p $bt $bt/out
 for i in $ids; do
-  if [ ! -d /tmp/bt/$i ]; then cp -r /repo /tmp/bt/$i; rm -rf /tmp/bt/$i/target /tmp/bt/$i/.git; (cd /tmp/bt/$i && patch -p1 -s < /verif/benign/$i-b1/patch.diff) || echo "PATCH FAILED $i"; fi
+  [ -d $bt/$i ] || tools/mk_variant.sh $(cat benign/$i/BASE) benign/$i/patch.diff $bt/$i
 done
-run1() { i=$1; out=/tmp/beneval/$i.txt; : > $out
+run1() { i=$1; bt=$2; out=$bt/out/$i.txt; : > $out
   for p in C01 C02 C03 C04 C05 C06 C07 C08 C09 C10 C11 C12 C13 C14 C15 C16 C17 C18 C19 C20; do
-    o=$(VERIF_REPO=/tmp/bt/$i VERIF_SELFCHECK=1 ./check $p 2>&1); rc=$?
+    o=$(VERIF_REPO=$bt/$i VERIF_SELFCHECK=1 ./check $p 2>&1); rc=$?
     echo "$o" | grep -E "^\s+\[" | sed "s/^/  $p /" | cut -c1-200 >> $out
     [ $rc -ne 0 ] && echo "  $p exit=$rc" >> $out
   done; }
 export -f run1
-echo $ids | tr ' ' '\n' | xargs -P 6 -I{} bash -c 'run1 {}'
-for i in $ids; do n=$(grep -c "exit=" /tmp/beneval/$i.txt); echo "== $i: $n failing checks"; grep -v "exit=" /tmp/beneval/$i.txt; done
+echo $ids | tr ' ' '\n' | xargs -P 6 -I{} bash -c "run1 {} $bt"
+for i in $ids; do n=$(grep -c "exit=" $bt/out/$i.txt); echo "== $i: $n failing checks"; grep -v "exit=" $bt/out/$i.txt | sort | uniq -c; done
+rm -rf /verif/facts/x*
